@@ -220,6 +220,12 @@ func (w *worker) emit(cs *caseT) {
 	w.caseIdx = idx + 1
 	out := w.execute(cs)
 	r := w.res
+	if why := expectReject(cs); why != "" {
+		r.Notes["rejection-expected"]++
+		if !rejectedStage(out.Stage) && cs.Peer != peerGone && !(cs.Reactor == "txpool" && cs.Peer != peerKnown) {
+			out.viol("invalid-accepted", "%s must be rejected (decode error or sending peer stopped) but the delivery ended at stage %q", why, out.Stage)
+		}
+	}
 	r.Cases++
 	r.Deliveries += int64(1 + len(cs.pre))
 	if out.Decoded {
@@ -263,6 +269,9 @@ func (w *worker) emit(cs *caseT) {
 		for i := 0; i < 5; i++ {
 			w.dropState(cs)
 			again := w.execute(cs)
+			if why := expectReject(cs); why != "" && !rejectedStage(again.Stage) && cs.Peer != peerGone && !(cs.Reactor == "txpool" && cs.Peer != peerKnown) {
+				again.viol("invalid-accepted", "again")
+			}
 			if got := oracleSet(again); got != want {
 				c := *cs
 				c.freeze()
